@@ -15,18 +15,18 @@ def main():
                       '(b) navigation_wu on every undirected 4-node graph and directed 3-node graph with lengths, random graphs n<=10, '
                       'nodal distances = Manhattan grid / ring / random symmetric integers, max_hops in {None,1,2,n}; '
                       'non-trivial = distinct case with a multi-hop path or an unreachable / failed pair')
-    ck.assumptions += ['empty diagonal, positive lengths (property quantifier)',
+    ck.assumptions += ['existing connections have positive length / weight (the property quantifies over all length or weight matrices; the theorems need nothing else: a family with a non-zero diagonal is part of every run); storage varies over float64/float32/int64/int32/uint8/bool and C/Fortran/transposed order on a third of the cases',
                        's = t: the code returns the empty sequence for every input (hops[s,s] = 0; theorem retrieve_self, predicate self-pair-empty); the path clauses are stated and checked for s != t',
-                       'every watchdog hit is counted per routine (coverage.timeouts); a routine timing out on more than 20 % of its calls is reported as a break',
+                       'every bct call runs under the watchdog with a 10x retry; a call of distance_wei_floyd / retrieve_shortest_path / navigation_wu with max_hops given that still does not return is a violation does-not-return; only navigation_wu(max_hops=None) is counted (more than 20 % timeouts = break)',
                        'navigation_wu calls that hit the watchdog (greedy walk cycling with max_hops=None) are counted as timeouts: termination is not claimed',
                        "inexact float lengths ('log' transform, decimal lengths k/10): validated against the oracle by tolerance 1e-9 only, no model correspondence"]
     # T-gen: re-extract the core update steps from /repo's current source (translate/cores.py); the generated
     # obligations say the extracted IR is the reference program whose interpreter is proved equal to the model
-    ck.cov['cores'] = cores.generate(families=['floyd'])
+    ck.cov['cores'] = cores.generate(families=['floyd', 'path'])
     for p_ in ck.cov['cores']['problems']:
         ck.corr_break('core extractor (translate/cores.py)', p_)
     ok = ck.lean_gate(['BctVerif.Props.C12'], extra_modules=['BctVerif.Model.Dist'])
-    ck.lean_gate([], gen_modules=['BctVerif.Gen.CoresFloyd'])
+    ck.lean_gate([], gen_modules=['BctVerif.Gen.CoresFloyd', 'BctVerif.Gen.CoresPath'])
     if ck.tier == 'thorough' and ok:
         ck.leanchecker(['BctVerif.Props.C12', 'BctVerif.Model.Dist'])
     rp = json.load(open(ck.replay)) if ck.replay else None
@@ -37,7 +37,7 @@ def main():
         cases = [c0 if c0.get('kind') in ('seq', 'probe', 'nav', 'big', 'bad') else
                  {'kind': 'seq', 'A': c0['A'], 'steps': [c0, c0], 'gen': 'replay', **({'only': c0['only']} if c0.get('only') else {})}]
     else:      # no replay, or a `no-failing-input-found` replay: run the whole tier
-        cases = [dict(c, only='floyd') for c in dc.gen_dist_cases(ck.rs, ck.tier) if c['kind'] in ('bin', 'wei', 'log', 'flt', 'seq')]
+        cases = [dict(c, only='floyd') for c in dc.gen_dist_cases(ck.rs, ck.tier) if c['kind'] in ('bin', 'wei', 'log', 'flt', 'seq') or (c['kind'] == 'bad' and c.get('what') == 'self-loops')]
         cases += dc.gen_nav_cases(ck.rs, ck.tier)
         npr = 500 if ck.tier == 'thorough' else 50
         pr = ['retrieve', 'navigation_wu', 'floyd_none', 'floyd_inv', 'floyd_log', 'edit_floyd', 'pair_wei_floyd']
